@@ -52,10 +52,17 @@ Definition compile (fd : funcdef) (s : store) : centry * store :=
    byname = true: the variant the property text warns about. *)
 Definition key_of (byname : bool) (i : nat) (fd : funcdef) : nat := if byname then fd_name fd else i.
 
-Definition entry_for (byname : bool) (st : istate) (i : nat) (fd : funcdef) : centry * cache * store :=
+(* percall = false: the code as it is — a cache hit reuses the captured copies made at compile time.
+   percall = true: the proposed repair (fixes/C18-*.diff) — the code is cached, the free-variable
+   containers are converted again at every call. *)
+Definition entry_for (byname percall : bool) (st : istate) (i : nat) (fd : funcdef) : centry * cache * store :=
   let k := key_of byname i fd in
   match lookup k (st_cache st) with
-  | Some e => (e, st_cache st, st_store st)
+  | Some e =>
+      if percall then
+        let '(e', s') := compile fd (st_store st) in
+        (mkEntry (ce_code e) (ce_caps e') (ce_base e') (ce_len e'), st_cache st, s')
+      else (e, st_cache st, st_store st)
   | None => let '(e, s') := compile fd (st_store st) in (e, (k, e) :: st_cache st, s')
   end.
 
@@ -66,22 +73,36 @@ Definition ilog (log : list (side * nat)) : list nat :=
 
 (* convert the arguments, run the code, read the result (what the caller
    observes of it: its structure) *)
+Definition invoke_val (c : ctx) (e : centry) (s : store) (ts : list tree)
+  : world * list (side * nat) * option val :=
+  let '(args, s1) := alloc_trees Interp ts s in
+  apply_body c (ce_code e) (ce_caps e) args (mkW [] s1).
+
 Definition invoke (fuel : nat) (c : ctx) (e : centry) (s : store) (ts : list tree)
   : store * list nat * option tree :=
-  let '(args, s1) := alloc_trees Interp ts s in
-  let '(w2, log, res) := apply_body c (ce_code e) (ce_caps e) args (mkW [] s1) in
+  let '(w2, log, res) := invoke_val c e s ts in
   (wI w2, ilog log, match res with Some v => snap fuel w2 v | None => None end).
 
 (* BytecodeInterpreter.eval(func, args, ctx) with the arguments given by
    their structure (their snapshot: see Boundary.to_value) *)
-Definition step_call (byname : bool) (fuel : nat) (tbl : list funcdef) (st : istate)
+Definition step_call (byname percall : bool) (fuel : nat) (tbl : list funcdef) (st : istate)
            (i : nat) (ts : list tree) (c : ctx) : istate * list nat * option tree :=
   match nth_error tbl i with
   | None => (st, [], None)
   | Some fd =>
-      let '(e, cache1, s1) := entry_for byname st i fd in
+      let '(e, cache1, s1) := entry_for byname percall st i fd in
       let '(s2, log, res) := invoke fuel (func_ctx fd c) e s1 ts in
       (mkSt cache1 s2, log, res)
+  end.
+
+(* the same evaluation, returning the result VALUE (the object the caller now holds) *)
+Definition step_call_val (byname percall : bool) (tbl : list funcdef) (st : istate)
+           (i : nat) (ts : list tree) (c : ctx) : option val :=
+  match nth_error tbl i with
+  | None => None
+  | Some fd =>
+      let '(e, _, s1) := entry_for byname percall st i fd in
+      snd (invoke_val (func_ctx fd c) e s1 ts)
   end.
 
 (* what can happen in a process between two evaluations *)
@@ -90,10 +111,10 @@ Inductive event :=
   | EPoke (a : nat) (i : nat) (z : Z).           (* the Python caller writes l[i] = z into a list object it
                                                     holds (any interpreter-created list: over-approximation) *)
 
-Definition step (byname : bool) (fuel : nat) (tbl : list funcdef) (st : istate) (ev : event)
+Definition step (byname percall : bool) (fuel : nat) (tbl : list funcdef) (st : istate) (ev : event)
   : istate * list nat * option tree :=
   match ev with
-  | ECall i ts c => step_call byname fuel tbl st i ts c
+  | ECall i ts c => step_call byname percall fuel tbl st i ts c
   | EPoke a i z =>
       match nth_error (st_store st) a with
       | Some cell => match upd_nth cell i (VNum z) with
@@ -107,24 +128,24 @@ Definition step (byname : bool) (fuel : nat) (tbl : list funcdef) (st : istate) 
       end
   end.
 
-Fixpoint run_hist (byname : bool) (fuel : nat) (tbl : list funcdef) (st : istate) (evs : list event) : istate :=
+Fixpoint run_hist (byname percall : bool) (fuel : nat) (tbl : list funcdef) (st : istate) (evs : list event) : istate :=
   match evs with
   | [] => st
-  | ev :: r => run_hist byname fuel tbl (fst (fst (step byname fuel tbl st ev))) r
+  | ev :: r => run_hist byname percall fuel tbl (fst (fst (step byname percall fuel tbl st ev))) r
   end.
 
 (* the observable results of a whole history, in order *)
-Fixpoint run_obs (byname : bool) (fuel : nat) (tbl : list funcdef) (st : istate) (evs : list event)
+Fixpoint run_obs (byname percall : bool) (fuel : nat) (tbl : list funcdef) (st : istate) (evs : list event)
   : list (option tree) :=
   match evs with
   | [] => []
-  | ev :: r => let '(st', _, o) := step byname fuel tbl st ev in o :: run_obs byname fuel tbl st' r
+  | ev :: r => let '(st', _, o) := step byname percall fuel tbl st ev in o :: run_obs byname percall fuel tbl st' r
   end.
 
 (* the result of evaluating f(args, ctx) after a history *)
-Definition result_after (byname : bool) (fuel : nat) (tbl : list funcdef) (hist : list event)
+Definition result_after (byname percall : bool) (fuel : nat) (tbl : list funcdef) (hist : list event)
            (i : nat) (ts : list tree) (c : ctx) : option tree :=
-  snd (step_call byname fuel tbl (run_hist byname fuel tbl empty_state hist) i ts c).
+  snd (step_call byname percall fuel tbl (run_hist byname percall fuel tbl empty_state hist) i ts c).
 
 (* ---- the hypothesis of history_independent_partial, as a computable monitor:
    no write (by a function body or by the caller) lands in the captured
@@ -135,7 +156,7 @@ Definition hits (c : cache) (a : nat) : bool := existsb (fun ke => in_region (sn
 Fixpoint clean_hist (fuel : nat) (tbl : list funcdef) (st : istate) (evs : list event) : bool :=
   match evs with
   | [] => true
-  | ev :: r => let '(st', log, _) := step false fuel tbl st ev in
+  | ev :: r => let '(st', log, _) := step false false fuel tbl st ev in
                forallb (fun a => negb (hits (st_cache st') a)) log && clean_hist fuel tbl st' r
   end.
 
